@@ -534,9 +534,7 @@ func checkMemoryLogOwnership(c *Ctx, p *Prog, rule string) {
 				// fields of a stored event written after it was appended
 				if tn, _, base, ok := fieldOfAddr(st.Addr); ok && tn == "StoredEvent" {
 					if _, fresh := stripConv(base).(*ssa.Alloc); !fresh {
-						if outermost(f).Name() != "ReplayWithUpcast" {
-							c.Violate(rule, "stored-event-mutated/"+FuncDisplay(f), p.Pos(in.Pos()), "a field of an existing StoredEvent is modified (events handed out by the store alias the log)", nil)
-						}
+						c.Violate(rule, "stored-event-mutated/"+FuncDisplay(f), p.Pos(in.Pos()), "a field of an existing StoredEvent is modified (events handed out by the memory store alias its log: the persisted type name / data change for every later reader)", nil)
 					}
 				}
 			}
@@ -1092,4 +1090,161 @@ func checkBatchedStream(c *Ctx, p *Prog, rule string) {
 		}
 	}
 	c.Floor(rule, "batched queries", n, 1)
+}
+
+// checkPoolNotStarved (C03.R7): ReadStream yields to the consumer while its rows cursor
+// (one pooled connection) is open; a consumer may call back into the store (a replay
+// handler that publishes → Append). With the pool capped at one connection that call waits
+// for the connection the stream itself holds: a self-deadlock.
+func checkPoolNotStarved(c *Ctx, p *Prog, rule string) {
+	n := 0
+	for _, f := range p.FuncsIn(PkgSQLite) {
+		for _, b := range f.Blocks {
+			for _, in := range b.Instrs {
+				call, ok := in.(*ssa.Call)
+				if !ok {
+					continue
+				}
+				switch calleeName(call.Common()) {
+				case "(*database/sql.DB).SetMaxOpenConns":
+					n++
+					k, isK := call.Common().Args[1].(*ssa.Const)
+					if isK && k.Value != nil && k.Int64() >= 2 {
+						c.Discharge(rule, "sqlite/pool-size/"+FuncDisplay(f), p.Pos(in.Pos()), "pool cap ≥ 2")
+					} else if isK && k.Value != nil && k.Int64() <= 0 {
+						c.Discharge(rule, "sqlite/pool-size/"+FuncDisplay(f), p.Pos(in.Pos()), "unlimited pool")
+					} else {
+						c.Violate(rule, "sqlite/pool-size/"+FuncDisplay(f), p.Pos(in.Pos()), "the connection pool is capped below two connections, but ReadStream yields to its consumer while holding a connection for its open cursor: a replay callback that publishes (Append) or reads waits forever for the connection the stream holds", nil)
+					}
+				case "(*database/sql.DB).Conn", "(*database/sql.DB).BeginTx", "(*database/sql.DB).Begin":
+					// a pinned connection / long transaction held by the store would have the same effect; BeginTx in migrations is fine (constructor)
+				}
+			}
+		}
+	}
+	if n == 0 {
+		c.Discharge(rule, "sqlite/pool-size/default", "", "the pool is not capped (database/sql default: unlimited)")
+	}
+	// exclusive locking mode makes every second connection fail to write
+	for _, s := range collectSQL(p, PkgSQLite) {
+		if s.Tokens[0] == "PRAGMA" && len(s.Tokens) >= 2 && s.Tokens[1] == "LOCKING_MODE" {
+			mode := s.Tokens[len(s.Tokens)-1]
+			c.Check(mode == "NORMAL", rule, "sqlite/pragma/locking_mode", s.Pos, "locking_mode = NORMAL", "locking_mode = "+mode+": the first pooled connection keeps the database file locked, so an append issued while a read cursor of another connection is open fails with SQLITE_BUSY and the publish is not recorded")
+		}
+	}
+}
+
+// checkTimestampLayout (C10.R6): the durable-streams store writes timestamps with a
+// layout that carries the zone offset, and reads them back with the same layout.
+func checkTimestampLayout(c *Ctx, p *Prog, rule string) {
+	var wrote, parsed []string
+	var wpos, ppos string
+	for _, f := range p.FuncsIn(PkgDurable) {
+		for _, b := range f.Blocks {
+			for _, in := range b.Instrs {
+				call, ok := in.(*ssa.Call)
+				if !ok {
+					continue
+				}
+				switch calleeName(call.Common()) {
+				case "(time.Time).Format":
+					if k, ok := call.Common().Args[1].(*ssa.Const); ok && k.Value != nil {
+						wrote = append(wrote, constant.StringVal(k.Value))
+						wpos = p.Pos(in.Pos())
+						// .UTC() first makes a literal Z right
+						if u, ok := stripConv(call.Common().Args[0]).(*ssa.Call); ok && calleeName(u.Common()) == "(time.Time).UTC" {
+							wrote[len(wrote)-1] += "|utc"
+						}
+					}
+				case "time.Parse":
+					if k, ok := call.Common().Args[0].(*ssa.Const); ok && k.Value != nil {
+						parsed = append(parsed, constant.StringVal(k.Value))
+						ppos = p.Pos(in.Pos())
+					}
+				}
+			}
+		}
+	}
+	if len(wrote) == 0 || len(parsed) == 0 {
+		c.Unresolved(rule, "durablestream/timestamp-layout", "cannot find the Format / Parse layouts of the durable-streams store")
+		return
+	}
+	for _, w := range wrote {
+		utc := strings.HasSuffix(w, "|utc")
+		layout := strings.TrimSuffix(w, "|utc")
+		zoneOK := strings.Contains(layout, "Z07:00") || strings.Contains(layout, "-07:00") || strings.Contains(layout, "-0700") || strings.Contains(layout, "Z0700") || utc
+		c.Check(zoneOK && strings.Contains(layout, "999999999") || zoneOK && strings.Contains(layout, "000000000"), rule, "durablestream/timestamp-layout/written", wpos, "timestamps are written with nanoseconds and their zone offset ("+layout+")", "timestamps are written with layout "+layout+", which drops the zone offset (a bare Z in a Go layout is a literal) or the nanoseconds: the instant read back differs for any non-UTC timestamp")
+		agree := false
+		for _, pl := range parsed {
+			if pl == layout {
+				agree = true
+			}
+		}
+		c.Check(agree, rule, "durablestream/timestamp-layout/reader-agrees", ppos, "the reader parses with the writer's layout", "the reader parses timestamps with a different layout than the writer uses")
+	}
+}
+
+// checkLimitUses (C10.R6): the limit parameter of a Read only flows into comparisons, or
+// into uses guarded by limit > 0 — never into an allocation size or slice bound.
+func checkLimitUses(c *Ctx, p *Prog, pkg, typ, rule string) {
+	f := p.Method(pkg, typ, "Read")
+	if f == nil {
+		return
+	}
+	var limit *ssa.Parameter
+	for _, prm := range f.Params {
+		if prm.Name() == "limit" {
+			limit = prm
+		}
+	}
+	if limit == nil {
+		c.Unresolved(rule, shortPkg(pkg)+"."+typ+".Read/limit-parameter", "no parameter named limit")
+		return
+	}
+	ok := true
+	for _, ref := range *limit.Referrers() {
+		switch x := ref.(type) {
+		case *ssa.BinOp:
+			switch x.Op {
+			case token.GTR, token.LSS, token.GEQ, token.LEQ, token.EQL, token.NEQ:
+			default:
+				ok = false
+			}
+		case *ssa.MakeInterface, *ssa.DebugRef:
+			// bound to a query / logged: must sit under limit > 0 for the query case — checked by limit semantics
+		case *ssa.MakeSlice, *ssa.Slice, *ssa.Convert:
+			ok = false
+			c.Violate(rule, shortPkg(pkg)+"."+typ+".Read/limit-only-compared", p.Pos(ref.Pos()), "the limit is used as an allocation size or slice bound: a negative limit (documented as 'no limit') or a very large one makes Read panic", nil)
+		case *ssa.Call:
+			if _, isB := x.Common().Value.(*ssa.Builtin); isB {
+				ok = false
+				c.Violate(rule, shortPkg(pkg)+"."+typ+".Read/limit-only-compared", p.Pos(ref.Pos()), "the limit is passed to a builtin (size/bound)", nil)
+			}
+		}
+	}
+	if ok {
+		c.Discharge(rule, shortPkg(pkg)+"."+typ+".Read/limit-only-compared", p.Pos(f.Pos()), "the limit is only compared (and bound to queries / logged)")
+	}
+}
+
+// checkNoRetryTransport (C13.R5): the durable-streams client is built without a retrying
+// transport — re-sending a non-idempotent append whose response was lost writes the event twice.
+func checkNoRetryTransport(c *Ctx, p *Prog, rule string) {
+	bad := 0
+	for _, f := range p.FuncsIn(PkgDurable) {
+		for _, b := range f.Blocks {
+			for _, in := range b.Instrs {
+				if ci, ok := in.(ssa.CallInstruction); ok {
+					n := calleeName(ci.Common())
+					if strings.Contains(n, "Retry") || strings.Contains(n, "retry") {
+						bad++
+						c.Violate(rule, "durablestream/no-retrying-transport/"+FuncDisplay(f), p.Pos(in.Pos()), "the durable-streams client is wrapped in a retrying transport ("+n+"): an append whose response was lost (5xx after the write was applied) is sent again — the event is written twice and the failure is not reported", nil)
+					}
+				}
+			}
+		}
+	}
+	if bad == 0 {
+		c.Discharge(rule, "durablestream/no-retrying-transport", "", "no retry middleware in the client construction: a rejected append is reported, not re-sent")
+	}
 }
